@@ -855,12 +855,22 @@ def gen_proto_case(rng, tier):
         emit(f"conn {p}")
         resp(p, "tiny")
         emit(f"subopen s0")
-        if rng.random() < 0.5:
+        r = rng.random()
+        if r < 0.35:
             resp(p)
+        elif r < 0.7:
+            emit(f"req {p} k={kind} {p_wants(rng, sim)}")       # over the cached substream
+        if rng.random() < 0.15:
+            # the cached substream fails under a request
+            emit(f"plan s0 fail={rng.choice([0, 0, 1])}")
+            emit(f"req {p} k={kind} {p_wants(rng, sim)}")
+            if sim.opens:
+                emit(f"subopen s{max(sim.opens)}")
         items = p_response(rng, sim, "multi")
         frames = Sim.frames_of(["resp", str(p), "k", items])
         k = rng.randrange(0, frames + 1)
-        emit(f"plan s0 {rng.choice(['fail', 'fail', 'stall'])}={k}" + ("" if rng.random() < 0.8 else ""))
+        live = [n for n, f in sim.far.items() if not f[1]]
+        emit(f"plan s{live[-1] if live else 0} {rng.choice(['fail', 'fail', 'stall'])}={k}")
         emit(f"resp {p} k={kind} {items}")
         if rng.random() < 0.3:
             resp(p, "tiny")                     # queued behind the retry
@@ -1185,6 +1195,8 @@ class ProtoOracle:
         self.excuse = {}             # peer -> [steps of environment failures]
         self.sticky = set()          # peers with view / conndead interference
         self.in_peer = {}            # i<k> -> peer
+        self.handed_subs = {}        # s<n> -> peer, substreams given to the protocol
+        self.dead_subs = set()       # ... whose connection was closed afterwards
 
     def note_excuse(self, p, i):
         self.excuse.setdefault(p, []).append(i)
@@ -1203,6 +1215,7 @@ class ProtoOracle:
             p = int(t[1])
             self.connected.discard(p)
             self.note_excuse(p, i)
+            self.dead_subs |= {n for n, q in self.handed_subs.items() if q == p}
             self.outstanding = {n: q for n, q in self.outstanding.items() if q != p}
         elif op == "dialfail":
             self.dialing.discard(int(t[1]))
@@ -1215,6 +1228,7 @@ class ProtoOracle:
         elif op == "subopen" and res == "ok":
             n = int(t[1][1:])
             self.outstanding.pop(n, None)
+            self.handed_subs[n] = self.sub_peer.get(n, 0)
             if len(t) > 2 and t[2] != "ok":
                 self.failing[n] = i
                 self.note_excuse(self.sub_peer.get(n, 0), i)
@@ -1254,6 +1268,9 @@ class ProtoOracle:
                     self.sub_peer[n] = int(w[1])
                     self.outstanding[n] = int(w[1])
         for n, frames in parse_frames(writes).items():
+            if n in self.dead_subs and frames:
+                self.v("written-to-dead-substream", f"s{n} belongs to a connection that was closed before; the "
+                       f"protocol still writes to it (the message cannot arrive)", i)
             for fr in frames:
                 self.wire.setdefault(n, []).append((i, fr))
                 self.check_frame(i, n, fr)
@@ -1287,6 +1304,7 @@ class ProtoOracle:
             if not want:
                 continue
             delivered = False
+            complete_on, seen_on = [], []
             for n, frames in sorted(self.wire.items()):
                 got = []
                 for (i, (kind, ln, items, odd)) in frames:
@@ -1296,6 +1314,7 @@ class ProtoOracle:
                             got.append((kind.lower(),) + tuple(it))
                 if not got:
                     continue
+                seen_on.append(n)
                 # attempts on one substream: each must be a prefix of the whole response, from its beginning
                 pos = 0
                 first_bad = None
@@ -1317,9 +1336,13 @@ class ProtoOracle:
                     continue
                 if pos == len(want):
                     delivered = True
+                    complete_on.append(n)
                 elif n not in self.failing:
                     self.v("response-truncated", f"response of step {h['step']}: only {pos} of {len(want)} entries were "
                            f"written to s{n}, which was never told to fail", h["step"])
+            if complete_on and len(seen_on) > len(complete_on) and min(complete_on) < max(seen_on):
+                self.v("sent-twice", f"{h['op']} of step {h['step']} was written completely to s{min(complete_on)} and "
+                       f"(partly) again to s{max(seen_on)}", h["step"])
             if delivered:
                 continue
             p = h["peer"]
@@ -1391,6 +1414,10 @@ def check_inbound_events(v, i, t, o, peer_of):
     need = sum(1 for b, ty in (wl or []) if ty in (0, 1) and parse_cid(b) is not None and canonical_cid(b))
     if got_req < need:
         v("want-lost", f"{need} well-formed want-list entries, {got_req} reported to the user", i)
+    got_pres = sum(1 for e in events if e.startswith("resp:") for it in e.split(":", 2)[2].split("+") if it[0] == "P")
+    need_p = sum(1 for b, ty in pres if ty in (0, 1) and parse_cid(b) is not None and canonical_cid(b))
+    if got_pres < need_p:
+        v("presence-lost", f"{need_p} well-formed presence entries, {got_pres} reported to the user", i)
     got_blocks = sum(1 for e in events if e.startswith("resp:") for it in e.split(":", 2)[2].split("+") if it[0] == "B")
     need_b = sum(1 for p, d in payload if must_deliver(p))
     if got_blocks < need_b:
